@@ -139,9 +139,8 @@ def settle (p : Proc) : Proc :=
   match p.mode with
   | .finished _ => { p with todo := [] }
   | m =>
-    match dropSkipped m p.hit p.todo with
-    | [] => { p with todo := [], mode := .finished .crashed }
-    | l => { p with todo := l }
+    if (dropSkipped m p.hit p.todo).isEmpty then { p with todo := [], mode := .finished .crashed }
+    else { p with todo := dropSkipped m p.hit p.todo }
 
 /-- the result of executing one op -/
 structure Eff where
